@@ -7,6 +7,7 @@ V: Trace_Origin validates recorded pad/unpad calls for every length and recorded
    issuer histories (look-alike origins registered, real requests evaluated):
    logged request size = WireSize(Blocks(len)), served iff registered."""
 import vlib
+from checks import ages_common as ag
 from checks import verdicts_common as vc
 from checks import c04
 
@@ -21,7 +22,9 @@ def run(ctx):
     n, files, cases = ctx.record_and_validate("origin", "Trace_Origin", describe=describe, key=lambda e, c: "origin %s %s" % (e.get("op"), e["_why"]))
     vn, vcases, vdepth = vc.run(ctx, ["rlorigins"])   # Verdicts.tla: one issuer, every history of requests for look-alike names
     hist = [c for c in cases if c["op"] == "Hist"]
+    an, acases = ag.run(ctx, ['rlmany', 'rlrare'])   # Ages.tla: every schedule of phases on one long-lived object, each phase scaled to n operations
     return ctx.finish({
+        **ag.coverage(an, acases),
         "traces_validated_against_impl": len(hist),
         "events_validated": n,
         **vc.coverage(vn, vcases, vdepth),
@@ -41,6 +44,8 @@ def run(ctx):
 
 
 def replay(ctx, path):
+    if vlib.json.load(open(path)).get("family") == "ages":
+        return ag.replay(ctx, path)
     if vlib.json.load(open(path)).get("family") == "verdicts":
         return vc.replay(ctx, path)
     return ctx.replay_case(path, "origin", "Trace_Origin")
